@@ -1,2 +1,10 @@
 """Per-property pass configuration: which generator families run, with what share of the budget."""
-CFG = {}
+CFG = {
+    "C18": {
+        "passes": [
+            {"prop": "C18", "share": 0.45, "name": "dense"},
+            {"prop": "C18", "share": 0.55, "name": "dense-race", "race": True},
+        ],
+        "evidence": {"race_detector": "second pass runs the same plan family on a -race build; a report whose stacks include pion/turn frames kills the worker and is replayed"},
+    },
+}
